@@ -1329,6 +1329,10 @@ class Engine:
         if self.spec_ctx and name in self.repo.classes:
             return SV("class", name)  # specifications may name any class of the package
         if self.spec_ctx:
+            # ... any module-level function of the package whose name is unique
+            hits = [m.funcs[name] for m in self.repo.modules.values() if m.name not in self.repo.ghost and name in m.funcs]
+            if len(hits) == 1:
+                return SV("func", ("repo", hits[0], None))
             # ... and any modelled external module / constant (function-local imports are not in scope in the pre-state)
             if any(k.startswith(name + ".") for k in self.ext_models):
                 return SV("module", name)
